@@ -506,3 +506,19 @@ def json_marshal(eng, st, fr, args, ins):
     v = eng.fresh(st, "json.marshal", 64, kind="forcebv")
     bs = tuple(v.to_bytes(8, "big")) if not is_sym(v) else eng.unpack(v, 8)
     return (eng.new_slice(st, "uint8", bs), None)
+
+
+# ---- time.NewTicker: wall-clock time is not modelled; a ticker has a tick available whenever the code looks at it, up to
+# TICKER_TICKS times (then it is silent). Code that polls on a ticker is thereby explored for every number of polls up to that
+# bound; which other select cases are ready at the same time still forks.
+TICKER_TICKS = 12
+
+
+@intr("time.NewTicker")
+def time_newticker(eng, st, fr, args, ins):
+    from symex import GoChan, ChanRef, st_oid
+    oid = st_oid(st)
+    zt = eng.zero("time.Time")
+    st.heap[oid] = GoChan((zt,) * TICKER_TICKS, TICKER_TICKS, False)
+    eng.objtype[oid] = "<-chan time.Time"
+    return eng.alloc_val(st, "time.Ticker", (ChanRef(oid), True))
